@@ -493,7 +493,11 @@ class Interp(object):
         for a in list(args) + list(kwargs.values()):
             if isinstance(a, (SymNode, Obj, Unknown, SymSet, SymPos, LocExpr, SymDict)):
                 raise Uninterpretable('native %s applied to abstract value %r' % (name, a))
-        return fn.fn(self, args, kwargs)
+        try:
+            return fn.fn(self, args, kwargs)
+        except (UnicodeError, LookupError, OverflowError, ZeroDivisionError, ValueError) as e:
+            # a builtin applied to concrete values raised: that is the interpreted program's exception
+            raise InterpRaise(type(e).__name__, str(e))
 
     def instantiate(self, ci, args, kwargs):
         o = Obj(ci)
@@ -1063,9 +1067,10 @@ class Interp(object):
             raise InterpRaise('FileNotFoundError', path)
         text = self.files[path]
         ci = self.facts.classes.get('Unresolved') or next(iter(self.facts.classes.values()))
-        return Obj(ci, {'read': Native('read', lambda it, a, k: text), 'close': Native('close', lambda it, a, k: None),
-                        '__enter__': Native('__enter__', lambda it, a, k: None), '__exit__': Native('__exit__', lambda it, a, k: False)},
-                   'file ' + path)
+        fobj = Obj(ci, {'read': Native('read', lambda it, a, k: text), 'close': Native('close', lambda it, a, k: None),
+                        '__exit__': Native('__exit__', lambda it, a, k: False)}, 'file ' + path)
+        fobj.attrs['__enter__'] = Native('__enter__', lambda it, a, k: fobj)      # `with open(...) as f` binds the file itself
+        return fobj
 
     def nat_listdir(self, args, kwargs):
         self.effect('listdir', args[0])
@@ -1725,6 +1730,12 @@ class Interp(object):
         for t in st.targets:
             if isinstance(t, ast.Subscript):
                 c = self.eval(t.value, f)
+                if isinstance(t.slice, ast.Slice):
+                    lo, hi, step = [self.eval(x, f) if x is not None else None for x in (t.slice.lower, t.slice.upper, t.slice.step)]
+                    if not isinstance(c, list):
+                        raise Uninterpretable('del of a slice of %r' % (c,))
+                    del c[slice(lo, hi, step)]
+                    continue
                 i = self.eval(t.slice, f)
                 try:
                     del c[i]
